@@ -528,6 +528,8 @@ func flatJSON(n *TNode) string {
 		if x.T == "leaf" && x.Leaf.Tag == "ptr" {
 			x.Leaf = x.Leaf.Elems[0]
 		}
+		// presentation settings are not among the differences the statement obliges IsEqual to report
+		x.Sym, x.Paren, x.Fold, x.NoPad, x.LeadOnce, x.Delim, x.Enc, x.Neg, x.Fwd = "", false, false, false, false, "", nil, false, false
 	})
 	return core.JSON(c)
 }
